@@ -670,6 +670,10 @@ func (e *Engine) assumeCond(st *State, cond ssa.Value, outcome bool) {
 				// x != y: usable only at interval ends
 				e.assumeNeq(st, x.Sub(y))
 				e.bitTestRefine(st, c)
+				e.shrinkRefine(st, c)
+			}
+			if op == token.GTR {
+				e.shrinkRefine(st, c)
 			}
 			return
 		}
@@ -799,6 +803,95 @@ func (e *Engine) congFromRem(st *State, cmp *ssa.BinOp, equal bool) {
 		r := modpos(x.T[0].K*(k-x.C), m)
 		st.addCong(x.T[0].A, Cong{m, r})
 	}
+}
+
+// shrinkRefine: the loop condition `b != 0` (or `b > 0`) on an unsigned w-bit header phi b whose every back
+// edge carries b >> c (c >= 1 constant) holds in iteration k (counted from 0) only if k*c < w. A header phi
+// of the same loop that starts at the constant a and is advanced by exactly 1 on every back edge equals a + k,
+// so inside the body it is at most a + (w-1)/c.
+func (e *Engine) shrinkRefine(st *State, cmp *ssa.BinOp) {
+	phi, ok := cmp.X.(*ssa.Phi)
+	if !ok || !isConstZero(cmp.Y) {
+		return
+	}
+	h := phi.Block()
+	if cmp.Block() != h {
+		return
+	}
+	tr := typeRange(phi.Type())
+	if !tr.HasHi || !tr.HasLo || tr.Lo != 0 {
+		return
+	}
+	w := int64(0)
+	for x := tr.Hi + 1; x > 1; x >>= 1 {
+		w++
+	}
+	minShift := int64(0)
+	nBack := 0
+	for i, p := range h.Preds {
+		if !h.Dominates(p) {
+			continue
+		}
+		nBack++
+		sh, ok := phi.Edges[i].(*ssa.BinOp)
+		if !ok || sh.Op != token.SHR || sh.X != ssa.Value(phi) {
+			return
+		}
+		k, ok := sh.Y.(*ssa.Const)
+		if !ok || k.Value == nil {
+			return
+		}
+		c := k.Int64()
+		if c < 1 {
+			return
+		}
+		if minShift == 0 || c < minShift {
+			minShift = c
+		}
+	}
+	if nBack == 0 || minShift == 0 {
+		return
+	}
+	maxIter := (w - 1) / minShift
+	for _, in := range h.Instrs {
+		q, ok := in.(*ssa.Phi)
+		if !ok {
+			break
+		}
+		if q == phi || !isInt(q.Type()) {
+			continue
+		}
+		init, okc := int64(0), true
+		for i, p := range h.Preds {
+			if h.Dominates(p) {
+				add, ok := q.Edges[i].(*ssa.BinOp)
+				if !ok || add.Op != token.ADD || add.X != ssa.Value(q) || !isConstVal(add.Y, 1) {
+					okc = false
+				}
+			} else {
+				k, ok := q.Edges[i].(*ssa.Const)
+				if !ok || k.Value == nil {
+					okc = false
+				} else {
+					init = k.Int64()
+				}
+			}
+		}
+		if okc {
+			st.Assume(Const(init + maxIter).Sub(Var(e.atomOf(q))))
+		}
+	}
+}
+
+func isConstZero(v ssa.Value) bool { return isConstVal(v, 0) }
+
+func isConstVal(v ssa.Value, want int64) bool {
+	k, ok := v.(*ssa.Const)
+	if !ok || k.Value == nil || k.Value.Kind() != constant.Int {
+		return false
+	}
+	x, exact := constant.Int64Val(k.Value)
+	return exact && x == want
 }
 
 // bitClearRefine: (x & 2^k) == 0 together with 0 <= x < 2^(k+1) gives x < 2^k.
